@@ -328,6 +328,15 @@ TIES = {
             "(over any payload type with the tar/codec oracle of Props/C07.v)", "the ArFile base class over the member "
             "list, tgz() as the model's oracle, sets of names as duplicate-free lists, bytes methods; constants from "
             "Gen/DebConsts.v"),
+    "C09": ("Props/C09Tie.v", 40, "the doubly linked list behind the ordered key set, at POINTER LEVEL (heap mode: objects are "
+            "references into a threaded heap, attribute reads/writes are heap lookups/updates, Cls(args) allocates): "
+            "LinkedListNode (constructor, previous_node getter/setter, link_nodes, _insert_link, insert_before/after, "
+            "remove, iter_next), LinkedList (remove_node, append, insert_at_head, insert_node_before/after, "
+            "insert_before/after, iter_nodes/__iter__, clear, pop, tail, __len__/__bool__, extend) and OrderedSet (add, "
+            "remove, __contains__, __len__, __iter__, extend, _reorder, order_first/last/before/after) — same heap, same "
+            "result or same error kind with the same partial effects, mostly with no well-formedness guard",
+            "node slots as heap cells with fresh allocation, weak references as ids, the lookup table as the model's "
+            "association list keyed by the lowered item, _strI equality as equality of lowered text"),
     "C12": ("Props/C12Tie.v", 18, "_multivalued.get_as_string (the writer), PdiffIndex/Release._fixed_field_lengths and "
             "_get_size_field_length, Release.set_size_field_behavior, _multivalued.__init__ (the reader, on every mapping), "
             "validate_input, is_multi_line and the inherited __setitem__ — for every one of the five classes' tables "
@@ -387,6 +396,16 @@ AGREE = {
            "integers (PrimInt63.int/lsr/land/leb/eqb: the case literals are packed), which Print Assumptions lists",
     "C05": " under a computable side condition (holds also reads the re-parse and the alternative-spelling lookups, "
            "which agree does not compare)",
+    "C07": " under the computable side condition judged (the expectation the case carries describes what was packed and "
+           "the Deb822 fields of the control file — C02's — read as expected), proved weakest; acceptance/rejection, "
+           "DebError only, the spelling clause and the extension gate follow from agree alone",
+    "C10": " under the computable side condition judged (initial separators well-formed; the recorded fresh parse of each "
+           "dump is the reference read-out; for p[k]=v/append/insert the value-to-field step that is C05's subject) — "
+           "the seven structural operations need nothing else; true on all tested corpus and generated cases",
+    "C11": " under the computable side condition judged (the dump re-parses without error element; operations and values "
+           "inside the proved alphabet) — also stated with a condition on the input only (judged_text)",
+    "C12": " under the computable side condition judged (faithful ASCII-name domain; distinct raw keys; the re-parse "
+           "of a built object split as documented, which is C02's parser) — true on every sampled generated case",
     "C13": " under the computable side condition judged (the Packages/Sources accessor observation, which the model "
            "does not cover); proved weakest",
     "C15": " under the computable side condition judged (plain line input, max_blocks != 0, consistent public "
